@@ -166,6 +166,17 @@ func mockCatalogue() []mockCase {
 		f.Services[0].Methods = append([]*spec.Method{{Name: "Before", In: m0.In, Out: m0.Out, HTTP: &spec.HTTP{Path: "/before", Verb: 2}}}, f.Services[0].Methods...)
 		return f
 	}})
+	// a message that is the request of one RPC and the response of others
+	out = append(out, mockCase{ID: "mock/examples/request-type-also-response", Examples: map[string][]string{"title": {"alpha", "beta"}, "revision": {"7"}, "score": {"2.5"}}, ExKind: map[string]string{"title": "string", "revision": "int", "score": "float"}, Build: func(pkg string) *spec.File {
+		f := &spec.File{}
+		note := &spec.Message{Name: "Note", Fields: []*spec.Field{spec.F("title", 1, spec.String).With(func(a *spec.Ann) { a.Examples = []string{"alpha", "beta"} }),
+			spec.F("revision", 2, spec.Int64).With(func(a *spec.Ann) { a.Examples = []string{"7"} }), spec.F("score", 3, spec.Double).With(func(a *spec.Ann) { a.Examples = []string{"2.5"} })}}
+		f.Messages = []*spec.Message{{Name: "MReq", Fields: []*spec.Field{spec.F("id", 1, spec.String)}}, note}
+		f.Services = []*spec.Service{{Name: "MockedService", BasePath: spec.S("/mock"), Methods: []*spec.Method{
+			{Name: "GetNote", In: "." + pkg + ".MReq", Out: "." + pkg + ".Note", HTTP: &spec.HTTP{Path: "/get", Verb: 2}},
+			{Name: "UpdateNote", In: "." + pkg + ".Note", Out: "." + pkg + ".Note", HTTP: &spec.HTTP{Path: "/update", Verb: 2}}}}}
+		return f
+	}})
 	return out
 }
 
@@ -296,83 +307,87 @@ func c20(c *Ctx) {
 				c.R.Violate(caseID, "mock-server-start", err.Error(), map[string]any{"proto": protoText})
 				continue
 			}
-			m := svc.Methods[0]
-			verb := "POST"
-			target := *svc.BasePath + m.HTTP.Path
-			var body []byte = []byte(`{"id":"abc"}`)
-			if m.HTTP.Verb == 1 {
-				verb, body = "GET", nil
-				target = strings.Replace(target, "{id}", "abc", 1) + "?q=z"
-			}
-			var op oas.Op
-			if d := u.doc[svc.Name]; d != nil {
-				for _, o := range d.Ops() {
-					if o.OperationID == m.Name {
-						op = o
+			for _, m := range svc.Methods {
+				verb := "POST"
+				target := *svc.BasePath + m.HTTP.Path
+				var body []byte = []byte(`{"id":"abc"}`)
+				if !strings.HasSuffix(m.In, ".MReq") {
+					body = []byte(`{}`)
+				}
+				if m.HTTP.Verb == 1 {
+					verb, body = "GET", nil
+					target = strings.Replace(target, "{id}", "abc", 1) + "?q=z"
+				}
+				var op oas.Op
+				if d := u.doc[svc.Name]; d != nil {
+					for _, o := range d.Ops() {
+						if o.OperationID == m.Name {
+							op = o
+						}
 					}
 				}
-			}
-			seen := map[string]map[string]bool{}
-			okAll := true
-			for n := 0; n < 50; n++ {
-				resp, err := rawHTTP(verb, gs.URL, target, [][2]string{{"Content-Type", "application/json"}}, body)
-				c.R.Eval(1)
-				if err != nil {
-					c.R.Violate(caseID, "mock-no-response", err.Error(), map[string]any{"proto": protoText})
-					okAll = false
-					break
-				}
-				evs, _ := syncEvents(ch)
-				for _, e := range evs {
-					if e.Str("ev") == "panic" {
-						c.R.Violate(caseID, "panic", e.Str("value"), map[string]any{"proto": protoText, "stack": e.Str("stack")})
+				seen := map[string]map[string]bool{}
+				okAll := true
+				for n := 0; n < 50; n++ {
+					resp, err := rawHTTP(verb, gs.URL, target, [][2]string{{"Content-Type", "application/json"}}, body)
+					c.R.Eval(1)
+					if err != nil {
+						c.R.Violate(caseID, "mock-no-response", err.Error(), map[string]any{"proto": protoText})
 						okAll = false
+						break
+					}
+					evs, _ := syncEvents(ch)
+					for _, e := range evs {
+						if e.Str("ev") == "panic" {
+							c.R.Violate(caseID, "panic", e.Str("value"), map[string]any{"proto": protoText, "stack": e.Str("stack")})
+							okAll = false
+						}
+					}
+					if resp.Status != 200 {
+						c.R.Violate(caseID, "mock-status", fmt.Sprintf("st%d", resp.Status), map[string]any{"proto": protoText, "response_body": string(resp.Body)})
+						okAll = false
+						break
+					}
+					t, perr := jsonmap.Parse(resp.Body)
+					if perr != nil {
+						c.R.Violate(caseID, "mock-invalid-json", "", map[string]any{"proto": protoText, "response_body": string(resp.Body)})
+						okAll = false
+						break
+					}
+					if n < 3 && op.Responses != nil {
+						samples = append(samples, wireSample{caseID: caseID, docKey: u.f.Package + "/" + svc.Name, schema: closed(op.Responses["200"]), inst: t, what: "mock 200 response", proto: protoText, raw: string(resp.Body)})
+					}
+					for path := range u.mc.Examples {
+						if seen[path] == nil {
+							seen[path] = map[string]bool{}
+						}
+						for _, v := range lookupPath(t, path) {
+							seen[path][fmt.Sprint(v)] = true
+						}
 					}
 				}
-				if resp.Status != 200 {
-					c.R.Violate(caseID, "mock-status", fmt.Sprintf("st%d", resp.Status), map[string]any{"proto": protoText, "response_body": string(resp.Body)})
-					okAll = false
-					break
+				if !okAll {
+					continue
 				}
-				t, perr := jsonmap.Parse(resp.Body)
-				if perr != nil {
-					c.R.Violate(caseID, "mock-invalid-json", "", map[string]any{"proto": protoText, "response_body": string(resp.Body)})
-					okAll = false
-					break
-				}
-				if n < 3 && op.Responses != nil {
-					samples = append(samples, wireSample{caseID: caseID, docKey: u.f.Package + "/" + svc.Name, schema: closed(op.Responses["200"]), inst: t, what: "mock 200 response", proto: protoText, raw: string(resp.Body)})
-				}
-				for path := range u.mc.Examples {
-					if seen[path] == nil {
-						seen[path] = map[string]bool{}
+				for path, exs := range u.mc.Examples {
+					kind := u.mc.ExKind[path]
+					if strings.HasSuffix(kind, "-unparsable") {
+						continue // only "answers + schema-conformant" is asserted
 					}
-					for _, v := range lookupPath(t, path) {
-						seen[path][fmt.Sprint(v)] = true
+					allowed := map[string]bool{}
+					for _, e := range exs {
+						allowed[normExample(e, kind)] = true
 					}
+					for got := range seen[path] {
+						if !allowed[normExample(got, kind)] {
+							c.R.Violate(caseID, "value-outside-declared-examples", kind, map[string]any{"proto": protoText, "field": path, "declared": exs, "observed": keysOf(seen[path])})
+							break
+						}
+					}
+					c.R.Count("example_fields_checked", 1)
 				}
 			}
 			gs.Stop()
-			if !okAll {
-				continue
-			}
-			for path, exs := range u.mc.Examples {
-				kind := u.mc.ExKind[path]
-				if strings.HasSuffix(kind, "-unparsable") {
-					continue // only "answers + schema-conformant" is asserted
-				}
-				allowed := map[string]bool{}
-				for _, e := range exs {
-					allowed[normExample(e, kind)] = true
-				}
-				for got := range seen[path] {
-					if !allowed[normExample(got, kind)] {
-						c.R.Violate(caseID, "value-outside-declared-examples", kind, map[string]any{"proto": protoText, "field": path, "declared": exs, "observed": keysOf(seen[path])})
-						break
-					}
-				}
-				c.R.Count("example_fields_checked", 1)
-			}
 		}
 		c.R.Decided(caseID)
 	}
